@@ -429,6 +429,8 @@ StepIdleE(cfg, o, ln) ==
              \cup (IF ln.qn # 0 \/ o.q[b] # <<>> THEN {W("C15.queue_not_empty", 0, b, "", 0, "")} ELSE {})
              \cup {W("C15.inflight", e, b, "", 0, o.snap[e].st) : e \in {z \in Range(o.hist[b]) : o.snap[z].st # "completed"}}
              \cup {W("C15.unfinished", e, b, "", 0, "") : e \in {z \in x.before : ~FinishedOn(cfg, o, b, z)}}
+             \* ... and nothing the bus accepted *during* the call is left unprocessed either ("nothing queued, pending or started")
+             \cup {W("C15.unfinished", e, b, "", 0, "during") : e \in {z \in Range(o.acc[b]) \ x.before : ~FinishedOn(cfg, o, b, z)}}
   IN AddW(o1, w)
 
 StepStopB(cfg, o, ln) ==
